@@ -744,7 +744,7 @@ func (s *session) oneRun(w *rec.Writer) error {
 		return errWedged
 	}
 	// all sync blocks are released: pending registrations must complete
-	deadline := time.Now().Add(5 * time.Second)
+	deadline := time.Now().Add(20 * time.Second)
 	stuck := []string{}
 	for {
 		stuck = stuck[:0]
